@@ -3,7 +3,9 @@ import glob
 import os
 
 from sim import core, storage, env
-from . import battery, readers
+from . import battery, readers, filelib
+
+SPATH = storage.PREFIX + 'g.sgz'          # the sibling: another file of the same geometry (C15)
 
 # xarray and whatever it imports lazily must be loaded while nothing is patched (a module imported
 # under the simulator's patches would bind the simulated names for good)
@@ -28,10 +30,11 @@ EMU_OPENERS_C07 = ['emulator', 'emulator_blob']
 
 
 def gen_history(rng, m, n_ops, reader_openers=READER_OPENERS, emu_openers=EMU_OPENERS, two_threads=False,
-                xarray_ok=False):
+                xarray_ok=False, sibling_ok=False):
     """ops: ['open', slot, opener] | ['close', slot] | ['call', slot, call].  Slots 0..3 readers,
-    4 = the emulator, 5 = an xarray dataset.  With two_threads the slots are split between two
-    caller threads (ops carry a 4th element: the thread, 0 or 1)."""
+    4 = the emulator, 5 = an xarray dataset, 6 = a reader on the *sibling* file (same geometry, other
+    content; opener 'sib:<opener>').  With two_threads the slots are split between two caller
+    threads (ops carry a 4th element: the thread, 0 or 1)."""
     ops = []
     open_slots = {}
     palette = {'reader': [], 'emulator': [], 'xarray': []}
@@ -42,6 +45,8 @@ def gen_history(rng, m, n_ops, reader_openers=READER_OPENERS, emu_openers=EMU_OP
     def do_open(slot):
         k = kind_of(slot)
         opener = 'xarray' if k == 'xarray' else rng.choice(emu_openers if k == 'emulator' else reader_openers)
+        if slot == 6:
+            opener = 'sib:' + opener
         ops.append(['open', slot, opener])
         open_slots[slot] = opener
 
@@ -66,11 +71,13 @@ def gen_history(rng, m, n_ops, reader_openers=READER_OPENERS, emu_openers=EMU_OP
         do_open(1)
     if xarray_ok and HAVE_XARRAY and not m['is_2d'] and rng.random() < 0.25:
         do_open(5)
+    if sibling_ok:
+        do_open(6)
     last = None
     while len(ops) < n_ops:
         r = rng.random()
         if r < 0.07 and len(open_slots) < 5:
-            free = [s for s in (0, 1, 2, 3, 4) if s not in open_slots]
+            free = [s for s in ((0, 1, 2, 3, 4, 6) if sibling_ok else (0, 1, 2, 3, 4)) if s not in open_slots]
             if free:
                 do_open(rng.choice(free))
                 continue
@@ -92,7 +99,7 @@ def gen_history(rng, m, n_ops, reader_openers=READER_OPENERS, emu_openers=EMU_OP
         last = (slot, c)
     if two_threads:
         for op in ops:
-            op.append(1 if op[1] in (1, 3) else 0)
+            op.append(1 if op[1] in (1, 3, 6) else 0)
     return ops
 
 
@@ -112,6 +119,8 @@ def gen_xr_call(rng, m):
 
 
 def open_any(fs, opener):
+    if opener.startswith('sib:'):
+        return readers.open_obj(fs, opener[4:], SPATH)
     if opener == 'xarray':
         import xarray as xr
         from seismic_zfp.sgz_xarray import SeismicZfpBackendEntrypoint
@@ -120,6 +129,8 @@ def open_any(fs, opener):
 
 
 def close_any(obj, opener):
+    if opener.startswith('sib:'):
+        opener = opener[4:]
     if opener == 'xarray':
         try:
             obj.close()
@@ -132,7 +143,13 @@ def close_any(obj, opener):
 
 
 def kind_of_opener(opener):
+    if opener.startswith('sib:'):
+        return 'sibling'
     return 'xarray' if opener == 'xarray' else readers.OPENERS[opener]['kind']
+
+
+def uses_sibling(ops):
+    return any(op[0] == 'open' and op[2].startswith('sib:') for op in ops)
 
 
 def distinct_calls(ops):
@@ -149,12 +166,16 @@ def distinct_calls(ops):
     return by_kind
 
 
-def truth_for(data, ops):
+def truth_for(data, ops, sibling=None):
     """Truth of every distinct (object kind, call) on a fresh isolated default object, computed
     before the history runs."""
     by_kind = distinct_calls(ops)
     xr_calls = by_kind.pop('xarray', [])
+    sib_calls = by_kind.pop('sibling', [])
     table = readers.truth_table(data, by_kind) if by_kind else {}
+    if sib_calls:
+        for (_, key), v in readers.truth_table(sibling, {'reader': sib_calls}, path=SPATH).items():
+            table[('sibling', key)] = v
     if xr_calls:
         fs = storage.SimFS()
         fs.add_file(readers.FPATH, data)
@@ -174,12 +195,14 @@ def truth_for(data, ops):
     return table
 
 
-def execute(data, ops, chooser, observer=None, step_cap=10 ** 7):
+def execute(data, ops, chooser, observer=None, step_cap=10 ** 7, sibling=None):
     """Runs the history.  Returns (outcomes aligned with ops (None for open/close that succeeded),
     fs, run result).  observer(i, op, opener, obj, requests, outcome) is called after every op with
     the range requests that op issued."""
     fs = storage.SimFS()
     fs.add_file(readers.FPATH, data)
+    if sibling is not None:
+        fs.add_file(SPATH, sibling)
     outcomes = [None] * len(ops)
     objs = {}
     threads = sorted({t for t in map(op_thread, ops) if t is not None}) or [0]
